@@ -3,13 +3,38 @@ import Nv.Proofs.C19
 /-!
 C19 — property theorems for `vcode` and `genNonceStr` (model: `Nv.Model.C19`).
 
-Histories are arbitrary lists of `Op` run with `Nv.final (step c pr)`; states are arbitrary unless a
-hypothesis says otherwise.  Theorems stated on cache keys (`Op.key c`) hold for *every* configuration;
-`key_eq_iff_pair` (Proofs) turns a key into the (area, phone) pair for `Proved c` — for ALL strings, because the
-length-prefixed key is injective (`mkKey_lenPrefix_inj`).  `Proved c` = both key formats length-prefixed, nonce
-bound = length.  The cache is a bounded LRU: where a theorem needs an entry to survive, it says so with the
-decidable hypothesis `noEvict` (the key is never evicted during the history), which `noEvict_of_few_others`
-discharges from "fewer operations on other keys than the capacity".
+INDEX — the clauses of properties.jsonl#C19.statement and the theorems that prove them (all in this file unless noted):
+ 1. "After a verification code has been sent to (area code, phone), verifying the same pair with that code and the returned hash
+    succeeds while the code is within its lifetime and the attempt limit"
+      → `vc_send_then_verify` (exact: ok IFF verify time − send time ≤ TTL, else timeout), `vc_send_then_verify_iff`,
+        `vc_send_then_verify_few_others`, `vc_send_then_verify_now`; key level / every cfg: `vc_send_then_verify_key`.
+ 2. "and verification fails for any other code, hash, phone, or after the lifetime"
+      → other code / hash / missing entry: `vc_wrong_rejected`; other phone or area code (all strings): `vc_other_pair_rejected`,
+        `vc_other_key_rejected`, `vc_nothing_sent_not_exist` (+ `mkKey_lenPrefix_inj`, `key_eq_iff_pair` in Proofs);
+        after the lifetime: `vc_expired_rejected`, `vc_expired_timeout`.
+ 3. "once more than the configured number of attempts were made against one sent code even the right code is rejected"
+      → `vc_attempts_bounded` (every history), `vc_limit_rejects_right_code`, `vc_attempts_exhausted`.
+ 4. "and a new send resets the attempts" → `vc_send_resets_attempts` (with `vc_send_then_verify_now`).
+ 5. "Generated codes have the configured length" → `vc_code_length` (mock), `vc_code_length_real` (real sender), `genNonce_length`.
+ 6. "and every character of the configured alphabet can occur" → `nonce_alphabet_surjective`, `nonce_alphabet_surjective'`,
+      `reachable_iff`, `genNonce_mem` — existence of a random source only.
+ 7. "sends closer together than the minimum interval … are refused"
+      → `vc_too_frequent_iff` (one step), `vc_first_send_not_too_frequent`, `vc_send_limits_min_interval` (exact: refused IFF
+        time − previous accepted send < MinInterval), `vc_send_limits_min_interval_key`.
+ 8. "or beyond the per-window count limit, are refused" → `vc_send_limits_count` (≤ MaxCount+1 per window, ghost window from outputs and
+      clock), `vc_count_limit_iff`, `vc_window_refresh`.
+ Quantifier "lifetimes and intervals": exact millisecond arithmetic for every duration and every non-decreasing clock history.
+ NOT proved, only monitored or assumed: `random.MD5UUID()` returns a fresh value (monitor `C19:MD5UUID:hash-repeated`); `rand.Intn(n)`
+ can return every value below n, in particular n−1 (monitor on `sample` lines); the real clock is monotonic (the harness uses a fake
+ clock through the proposed hook, else only ±∞ durations); calls are sequential (vcode has no lock — concurrency is not modelled);
+ strings are ASCII (bytes = characters); `cache.LRUCache` behaves as modelled (exercised with CacheSize 0–4); int counters do not overflow.
+
+Histories are arbitrary lists of timed `Op`s run with `Nv.final (step c pr)` (each operation carries the clock reading at which it
+happens; readings never decrease: `advance`); states are arbitrary unless a hypothesis says otherwise.  Theorems stated on cache keys
+(`Op.key c`) hold for *every* configuration; `key_eq_iff_pair` (Proofs) turns a key into the (area, phone) pair for `Proved c` — for
+ALL strings (`mkKey_lenPrefix_inj`).  `Proved c` = both key formats length-prefixed, nonce bound = length, comparisons `<` (minimum
+interval), `>` (window), `>` (lifetime).  The cache is a bounded LRU: where a theorem needs an entry to survive, it says so with the
+decidable hypothesis `noEvict`, which `noEvict_of_few_others` discharges from "fewer operations on other keys than the capacity".
 -/
 namespace Nv.C19
 
@@ -35,24 +60,24 @@ theorem step_same_key_pos (c : Cfg) (pr : Params) (hcap : 0 < pr.cap) (s : State
     (present k s = true → present k (step c pr s o).1 = true) ∧
       posOr0 k (step c pr s o).1.cache ≤ posOr0 k s.cache := by
   cases o with
-  | send a p =>
+  | send t a p =>
     have hk' : mkKey c.sendKeyFmt a p = k := hk
     simp only [step, send, hk']
-    rcases sendK_cases pr s k p with ⟨_, h2⟩ | ⟨cnt, _, h2, _⟩
+    rcases sendK_cases c pr (advance t s) k p with ⟨_, h2⟩ | ⟨cnt, ct, _, h2, _⟩
     · rw [h2]; exact ⟨id, Nat.le_refl _⟩
     · rw [h2]
-      have hl := lookup_setLRU_self k pr.cap hcap ⟨cnt + 1, 0, genCode pr p (s.nsent + 1), s.nsent + 1⟩ s.cache
-      refine ⟨fun _ => by simp [present, hl], ?_⟩
-      simp only [posOr0, hl, Option.isSome_some, if_true]
+      have hl := lookup_setLRU_self k pr.cap hcap ⟨cnt + 1, 0, genCode pr p ((advance t s).nsent + 1), (advance t s).nsent + 1, (advance t s).now, ct⟩ s.cache
+      refine ⟨fun _ => by simp only [present, advance_cache, hl]; rfl, ?_⟩
+      simp only [advance_cache, posOr0, hl, Option.isSome_some, if_true]
       rw [setLRU, pos_take _ _ _ (by rw [pos_touch_self]; exact hcap), pos_touch_self]
       exact Nat.zero_le _
-  | verify a p code hash =>
+  | verify t a p code hash =>
     have hk' : mkKey c.verifyKeyFmt a p = k := hk
     simp only [step, verify, hk']
     cases hl : lookup k s.cache with
-    | none => rw [verifyK_none _ _ _ _ _ hl]; exact ⟨id, Nat.le_refl _⟩
+    | none => rw [verifyK_none _ _ _ _ _ _ (by simpa using hl)]; exact ⟨id, Nat.le_refl _⟩
     | some e =>
-      rw [verifyK_some _ _ _ _ _ e hl]
+      rw [verifyK_some _ _ _ _ _ _ e (by simpa using hl)]
       refine ⟨fun _ => by simp [present], ?_⟩
       simp [posOr0, pos_touch_self]
 
@@ -61,28 +86,29 @@ theorem step_other_key_pos (c : Cfg) (pr : Params) (s : State) (o : Op) (k : Str
     present k (step c pr s o).1 = true ∧ pos k (step c pr s o).1.cache ≤ pos k s.cache + 1 := by
   have hp' : (lookup k s.cache).isSome = true := hp
   cases o with
-  | send a p =>
+  | send t a p =>
     have hk' : k ≠ mkKey c.sendKeyFmt a p := fun e => hk e.symm
     simp only [step, send]
-    rcases sendK_cases pr s (mkKey c.sendKeyFmt a p) p with ⟨_, h2⟩ | ⟨cnt, _, h2, _⟩
+    rcases sendK_cases c pr (advance t s) (mkKey c.sendKeyFmt a p) p with ⟨_, h2⟩ | ⟨cnt, ct, _, h2, _⟩
     · rw [h2]; exact ⟨hp, Nat.le_succ _⟩
     · rw [h2]
-      have hpt := pos_touch_ne hk' ⟨cnt + 1, 0, genCode pr p (s.nsent + 1), s.nsent + 1⟩ s.cache hp'
-      have hlt : (lookup k (touch (mkKey c.sendKeyFmt a p) ⟨cnt + 1, 0, genCode pr p (s.nsent + 1), s.nsent + 1⟩ s.cache)).isSome = true := by
+      generalize (⟨cnt + 1, 0, genCode pr p ((advance t s).nsent + 1), (advance t s).nsent + 1, (advance t s).now, ct⟩ : Entry) = en
+      have hpt := pos_touch_ne hk' en s.cache hp'
+      have hlt : (lookup k (touch (mkKey c.sendKeyFmt a p) en s.cache)).isSome = true := by
         rw [lookup_touch_ne hk']; exact hp'
       refine ⟨?_, ?_⟩
-      · simp only [present, setLRU]
+      · simp only [present, setLRU, advance_cache]
         rw [lookup_take_of_pos _ _ _ hlt (by omega)]; exact hlt
-      · simp only [setLRU]; rw [pos_take _ _ _ (by omega)]; exact hpt
-  | verify a p code hash =>
+      · simp only [setLRU, advance_cache]; rw [pos_take _ _ _ (by omega)]; exact hpt
+  | verify t a p code hash =>
     have hk' : k ≠ mkKey c.verifyKeyFmt a p := fun e => hk e.symm
     simp only [step, verify]
     cases hl : lookup (mkKey c.verifyKeyFmt a p) s.cache with
-    | none => rw [verifyK_none _ _ _ _ _ hl]; exact ⟨hp, Nat.le_succ _⟩
+    | none => rw [verifyK_none _ _ _ _ _ _ (by simpa using hl)]; exact ⟨hp, Nat.le_succ _⟩
     | some e =>
-      rw [verifyK_some _ _ _ _ _ e hl]
+      rw [verifyK_some _ _ _ _ _ _ e (by simpa using hl)]
       refine ⟨?_, pos_touch_ne hk' _ _ hp'⟩
-      simp only [present]; rw [lookup_touch_ne hk']; exact hp'
+      simp only [present, advance_cache]; rw [lookup_touch_ne hk']; exact hp'
 
 /-- **no eviction** whenever the position of the key plus the number of operations on other keys stays below the
     capacity — in particular for every history with fewer than `CacheSize` operations on other keys after a send -/
@@ -120,7 +146,7 @@ theorem noEvict_of_few_others (c : Cfg) (pr : Params) (k : Str) : ∀ (ops : Lis
 
 /-! ### tracking the binding of a key through a history -/
 
-/-- with no send to `k` and no eviction of `k`, the binding of `k` only counts attempts -/
+/-- with no send to `k` and no eviction of `k`, the binding of `k` only counts attempts (code, hash and both time stamps stay) -/
 theorem track (c : Cfg) (pr : Params) (k : Str) : ∀ (ops : List Op) (s : State) (e : Entry),
     lookup k s.cache = some e → (∀ o ∈ ops, o.isSend = true → o.key c ≠ k) → noEvict c pr k s ops = true →
     lookup k (final (step c pr) s ops).cache =
@@ -132,14 +158,14 @@ theorem track (c : Cfg) (pr : Params) (k : Str) : ∀ (ops : List Op) (s : State
       Option.isSome_some, Bool.true_eq_false, false_or] at hev
     by_cases hk : o.key c = k
     · cases o with
-      | send a p => exact absurd hk (hns _ (by simp) rfl)
-      | verify a p code hash =>
+      | send t a p => exact absurd hk (hns _ (by simp) rfl)
+      | verify t a p code hash =>
         have hk' : mkKey c.verifyKeyFmt a p = k := hk
-        have hs : (step c pr s (.verify a p code hash)).1 =
-            ⟨touch k { e with verifyCount := e.verifyCount + 1 } s.cache, s.nsent⟩ := by
-          simp only [step, verify, hk']; rw [verifyK_some _ _ _ _ _ e hl]
+        have hs : (step c pr s (.verify t a p code hash)).1 =
+            ⟨touch k { e with verifyCount := e.verifyCount + 1 } s.cache, s.nsent, max s.now t⟩ := by
+          simp only [step, verify, hk']; rw [verifyK_some _ _ _ _ _ _ e (by simpa using hl)]; rfl
         rw [final_cons, track c pr k os _ _ (by rw [hs]; exact lookup_touch_self _ _ _) hns' hev.2]
-        have : verifiesOf c k (Op.verify a p code hash :: os) = verifiesOf c k os + 1 := by
+        have : verifiesOf c k (Op.verify t a p code hash :: os) = verifiesOf c k os + 1 := by
           simp [verifiesOf, Op.isSend, hk]
         rw [this]; simp only [Option.some.injEq, Entry.mk.injEq, true_and, and_true]; omega
     · have hl' : lookup k (step c pr s o).1.cache = some e := by
@@ -152,28 +178,32 @@ theorem track (c : Cfg) (pr : Params) (k : Str) : ∀ (ops : List Op) (s : State
 
 /-! ### vc_send_then_verify -/
 
-/-- key level, every configuration whose two key formats agree: after an accepted send (capacity ≥ 1), any history that
-    does not send to that key again, does not evict it and makes fewer than `MaxVerifyCount` attempts against it, the sent
-    code with the returned hash verifies (lifetime not over) -/
+/-- key level, every configuration whose two key formats agree: a send accepted at clock reading `s.now` (capacity ≥ 1), then any
+    timed history that does not send to that key again, does not evict it and makes fewer than `MaxVerifyCount` attempts against
+    it, then the clock is read at `t`: the sent code with the returned hash is answered by the lifetime comparison alone —
+    `timeout` iff (time of the verify − time of the send) `>` TTL as the source compares, `ok` otherwise -/
 theorem vc_send_then_verify_key (c : Cfg) (pr : Params) (hfmt : c.sendKeyFmt = c.verifyKeyFmt)
-    (httl : pr.ttlExpired = false) (hcap : 0 < pr.cap) (s : State) (a p : Str) (h : Nat)
+    (hcap : 0 < pr.cap) (s : State) (a p : Str) (h : Nat)
     (hacc : (send c pr s a p).2.accepted = some h) (ops : List Op)
     (hns : ∀ o ∈ ops, o.isSend = true → o.key c ≠ mkKey c.sendKeyFmt a p)
     (hev : noEvict c pr (mkKey c.sendKeyFmt a p) (send c pr s a p).1 ops = true)
-    (hn : (verifiesOf c (mkKey c.sendKeyFmt a p) ops : Int) < pr.maxVerify) :
-    (verify c pr (final (step c pr) (send c pr s a p).1 ops) a p (genCode pr p h) h).2 = .ok := by
+    (hn : (verifiesOf c (mkKey c.sendKeyFmt a p) ops : Int) < pr.maxVerify) (t : Nat) :
+    (verify c pr (advance t (final (step c pr) (send c pr s a p).1 ops)) a p (genCode pr p h) h).2 =
+      if c.ttlCmp.holds (((advance t (final (step c pr) (send c pr s a p).1 ops)).now : Int) - s.now) pr.ttl
+      then .timeout else .ok := by
   unfold send at hacc hev ⊢
-  rcases sendK_cases pr s (mkKey c.sendKeyFmt a p) p with ⟨h1, _⟩ | ⟨cnt, h1, h2, _⟩
+  rcases sendK_cases c pr s (mkKey c.sendKeyFmt a p) p with ⟨h1, _⟩ | ⟨cnt, ct, h1, h2, _⟩
   · rw [h1] at hacc; cases hacc
   · rw [h1] at hacc; cases hacc
-    have hl := track c pr (mkKey c.sendKeyFmt a p) ops (sendK pr s (mkKey c.sendKeyFmt a p) p).1 _
+    have hl := track c pr (mkKey c.sendKeyFmt a p) ops (sendK c pr s (mkKey c.sendKeyFmt a p) p).1 _
       (by rw [h2]; exact lookup_setLRU_self _ _ hcap _ _) hns hev
     unfold verify
-    rw [← hfmt, verifyK_some _ _ _ _ _ _ hl]
+    rw [← hfmt, verifyK_some _ _ _ _ _ _ _ (by simpa using hl)]
     simp only
-    rw [checkVerify_ok_iff]
-    refine ⟨?_, rfl, rfl, httl⟩
-    simp only; omega
+    have := checkVerify_right c pr (advance t (final (step c pr) (sendK c pr s (mkKey c.sendKeyFmt a p) p).1 ops)).now
+      { sendCount := cnt + 1, verifyCount := 0 + ↑(verifiesOf c (mkKey c.sendKeyFmt a p) ops) + 1,
+        code := genCode pr p (s.nsent + 1), hash := s.nsent + 1, setTime := s.now, counterTime := ct } (by simp only; omega)
+    simpa using this
 
 /-- verify operations naming the pair (a, p) -/
 def verifiesOfPair (a p : Str) (ops : List Op) : Nat :=
@@ -207,74 +237,119 @@ theorem othersOf_eq_pair (c : Cfg) (hc : Proved c) (a p : Str) (ops : List Op) :
   · have h' : o.pair ≠ (a, p) := fun e => h (this.2 e)
     simp [h, h']
 
-/-- **vc_send_then_verify** (pair level, `Proved c`, ALL strings): a code sent to (a, p) verifies with the returned hash,
-    after any history that neither sends to (a, p) again, nor evicts its entry, nor uses up its attempts -/
-theorem vc_send_then_verify (c : Cfg) (hc : Proved c) (pr : Params) (httl : pr.ttlExpired = false) (hcap : 0 < pr.cap)
+/-- **vc_send_then_verify** (pair level, `Proved c`, ALL strings, all clock histories): a code sent to (a, p) at clock reading
+    `s.now`, verified with the returned hash at reading `t'` after any timed history that neither sends to (a, p) again, nor evicts
+    its entry, nor uses up its attempts, succeeds IFF `t' − s.now ≤ TTL`; otherwise the answer is `timeout` -/
+theorem vc_send_then_verify (c : Cfg) (hc : Proved c) (pr : Params) (hcap : 0 < pr.cap)
     (s : State) (a p : Str) (h : Nat) (hacc : (send c pr s a p).2.accepted = some h)
     (ops : List Op) (hns : ∀ o ∈ ops, o.isSend = true → o.pair ≠ (a, p))
     (hev : noEvict c pr (mkKey .lenPrefix a p) (send c pr s a p).1 ops = true)
-    (hn : (verifiesOfPair a p ops : Int) < pr.maxVerify) :
-    (verify c pr (final (step c pr) (send c pr s a p).1 ops) a p (genCode pr p h) h).2 = .ok := by
+    (hn : (verifiesOfPair a p ops : Int) < pr.maxVerify) (t : Nat) :
+    (verify c pr (advance t (final (step c pr) (send c pr s a p).1 ops)) a p (genCode pr p h) h).2 =
+      if ((advance t (final (step c pr) (send c pr s a p).1 ops)).now : Int) - s.now > pr.ttl then .timeout else .ok := by
   have hs : c.sendKeyFmt = .lenPrefix := hc.1
-  apply vc_send_then_verify_key c pr (by rw [hc.1, hc.2.1]) httl hcap s a p h hacc ops
-  · intro o ho hsend hk
-    rw [hs] at hk
-    exact hns o ho hsend ((key_eq_iff_pair c hc o a p).1 hk)
-  · rw [hs]; exact hev
-  · rw [hs, verifiesOf_eq_pair c hc a p ops]; exact hn
+  have := vc_send_then_verify_key c pr (by rw [hc.1, hc.2.1]) hcap s a p h hacc ops
+    (by
+      intro o ho hsend hk
+      rw [hs] at hk
+      exact hns o ho hsend ((key_eq_iff_pair c hc o a p).1 hk))
+    (by rw [hs]; exact hev)
+    (by rw [hs, verifiesOf_eq_pair c hc a p ops]; exact hn) t
+  rw [this, hc.2.2.2.2.2]
+  simp [GtCmp.holds]
 
-/-- the same with the syntactic no-eviction condition: fewer operations on other pairs than the capacity -/
-theorem vc_send_then_verify_few_others (c : Cfg) (hc : Proved c) (pr : Params) (httl : pr.ttlExpired = false)
+/-- the IFF form -/
+theorem vc_send_then_verify_iff (c : Cfg) (hc : Proved c) (pr : Params) (hcap : 0 < pr.cap)
     (s : State) (a p : Str) (h : Nat) (hacc : (send c pr s a p).2.accepted = some h)
     (ops : List Op) (hns : ∀ o ∈ ops, o.isSend = true → o.pair ≠ (a, p))
-    (hfew : othersOfPair a p ops < pr.cap) (hn : (verifiesOfPair a p ops : Int) < pr.maxVerify) :
-    (verify c pr (final (step c pr) (send c pr s a p).1 ops) a p (genCode pr p h) h).2 = .ok := by
+    (hev : noEvict c pr (mkKey .lenPrefix a p) (send c pr s a p).1 ops = true)
+    (hn : (verifiesOfPair a p ops : Int) < pr.maxVerify) (t : Nat) :
+    (verify c pr (advance t (final (step c pr) (send c pr s a p).1 ops)) a p (genCode pr p h) h).2 = .ok ↔
+      ((advance t (final (step c pr) (send c pr s a p).1 ops)).now : Int) - s.now ≤ pr.ttl := by
+  rw [vc_send_then_verify c hc pr hcap s a p h hacc ops hns hev hn t]
+  split
+  · rename_i hh
+    exact ⟨fun h0 => (by cases h0), fun h0 => absurd hh (by omega)⟩
+  · rename_i hh
+    exact ⟨fun _ => (by omega), fun _ => rfl⟩
+
+theorem send_accepted_pos0 (c : Cfg) (pr : Params) (hcap : 0 < pr.cap) (s : State) (a p : Str) (h : Nat)
+    (hacc : (send c pr s a p).2.accepted = some h) :
+    posOr0 (mkKey c.sendKeyFmt a p) (send c pr s a p).1.cache = 0 := by
+  unfold send at hacc ⊢
+  rcases sendK_cases c pr s (mkKey c.sendKeyFmt a p) p with ⟨h1, _⟩ | ⟨cnt, ct, _, h2, _⟩
+  · rw [h1] at hacc; cases hacc
+  · rw [h2]
+    simp only [posOr0, lookup_setLRU_self _ _ hcap, Option.isSome_some, if_true]
+    rw [setLRU, pos_take _ _ _ (by rw [pos_touch_self]; exact hcap), pos_touch_self]
+
+/-- the same with the syntactic no-eviction condition: fewer operations on other pairs than the capacity -/
+theorem vc_send_then_verify_few_others (c : Cfg) (hc : Proved c) (pr : Params)
+    (s : State) (a p : Str) (h : Nat) (hacc : (send c pr s a p).2.accepted = some h)
+    (ops : List Op) (hns : ∀ o ∈ ops, o.isSend = true → o.pair ≠ (a, p))
+    (hfew : othersOfPair a p ops < pr.cap) (hn : (verifiesOfPair a p ops : Int) < pr.maxVerify) (t : Nat) :
+    (verify c pr (advance t (final (step c pr) (send c pr s a p).1 ops)) a p (genCode pr p h) h).2 = .ok ↔
+      ((advance t (final (step c pr) (send c pr s a p).1 ops)).now : Int) - s.now ≤ pr.ttl := by
   have hcap : 0 < pr.cap := by omega
-  apply vc_send_then_verify c hc pr httl hcap s a p h hacc ops hns _ hn
+  apply vc_send_then_verify_iff c hc pr hcap s a p h hacc ops hns _ hn
   apply noEvict_of_few_others
   rw [othersOf_eq_pair c hc a p ops]
-  have hs : c.sendKeyFmt = .lenPrefix := hc.1
-  have hp0 : posOr0 (mkKey .lenPrefix a p) (send c pr s a p).1.cache = 0 := by
+  have := send_accepted_pos0 c pr hcap s a p h hacc
+  rw [hc.1] at this
+  rw [this]; omega
+
+/-- immediately after the send (the empty history), clock read at `t`: needs only `MaxVerifyCount ≥ 1` and `CacheSize ≥ 1` -/
+theorem vc_send_then_verify_now (c : Cfg) (hc : Proved c) (pr : Params)
+    (hcap : 0 < pr.cap) (hmax : 1 ≤ pr.maxVerify) (s : State) (a p : Str) (h : Nat)
+    (hacc : (send c pr s a p).2.accepted = some h) (t : Nat) :
+    (verify c pr (advance t (send c pr s a p).1) a p (genCode pr p h) h).2 = .ok ↔
+      ((max s.now t : Nat) : Int) - s.now ≤ pr.ttl := by
+  have := vc_send_then_verify_iff c hc pr hcap s a p h hacc [] (by simp) rfl (by simp [verifiesOfPair]; omega) t
+  have hnow : (send c pr s a p).1.now = s.now := by
     unfold send at hacc ⊢
-    rw [hs] at hacc ⊢
-    rcases sendK_cases pr s (mkKey .lenPrefix a p) p with ⟨h1, _⟩ | ⟨cnt, _, h2, _⟩
+    rcases sendK_cases c pr s (mkKey c.sendKeyFmt a p) p with ⟨h1, _⟩ | ⟨cnt, ct, _, h2, _⟩
     · rw [h1] at hacc; cases hacc
     · rw [h2]
-      simp only [posOr0, lookup_setLRU_self _ _ hcap, Option.isSome_some, if_true]
-      rw [setLRU, pos_take _ _ _ (by rw [pos_touch_self]; exact hcap), pos_touch_self]
-  rw [hp0]; omega
-
-/-- immediately after the send (the empty history): needs only `MaxVerifyCount ≥ 1` and `CacheSize ≥ 1` -/
-theorem vc_send_then_verify_now (c : Cfg) (hc : Proved c) (pr : Params) (httl : pr.ttlExpired = false)
-    (hcap : 0 < pr.cap) (hmax : 1 ≤ pr.maxVerify) (s : State) (a p : Str) (h : Nat)
-    (hacc : (send c pr s a p).2.accepted = some h) :
-    (verify c pr (send c pr s a p).1 a p (genCode pr p h) h).2 = .ok := by
-  have := vc_send_then_verify_key c pr (by rw [hc.1, hc.2.1]) httl hcap s a p h hacc [] (by simp) rfl
-    (by simp [verifiesOf]; omega)
-  simpa using this
-
+  simpa [hnow] using this
 /-! ### vc_wrong_rejected -/
 
-/-- **vc_wrong_rejected** (every state, every configuration): `ok` is returned only if the key is bound to exactly this
-    code and this hash, the lifetime is not over and this attempt is within the limit — so any other code, any other
-    hash, a missing entry, an expired lifetime or an exhausted counter are all rejected -/
+/-- **vc_wrong_rejected** (every state, every clock reading, every configuration): `ok` is returned only if the key is bound to
+    exactly this code and this hash, the lifetime comparison (now − setTime against TTL, as the source compares) does not hold and
+    this attempt is within the limit — so any other code, any other hash, a missing entry, an expired lifetime or an exhausted
+    counter are all rejected -/
 theorem vc_wrong_rejected (c : Cfg) (pr : Params) (s : State) (a p : Str) (code : Code) (hash : Nat)
     (hok : (verify c pr s a p code hash).2 = .ok) :
     ∃ e, lookup (mkKey c.verifyKeyFmt a p) s.cache = some e ∧ e.code = code ∧ e.hash = hash ∧
-      pr.ttlExpired = false ∧ e.verifyCount + 1 ≤ pr.maxVerify := by
+      c.ttlCmp.holds ((s.now : Int) - e.setTime) pr.ttl = false ∧ e.verifyCount + 1 ≤ pr.maxVerify := by
   unfold verify at hok
   cases hl : lookup (mkKey c.verifyKeyFmt a p) s.cache with
-  | none => rw [verifyK_none _ _ _ _ _ hl] at hok; cases hok
+  | none => rw [verifyK_none _ _ _ _ _ _ hl] at hok; cases hok
   | some e =>
-    rw [verifyK_some _ _ _ _ _ e hl] at hok
-    have := (checkVerify_ok_iff _ _ _ _).1 hok
+    rw [verifyK_some _ _ _ _ _ _ e hl] at hok
+    have := (checkVerify_ok_iff _ _ _ _ _ _).1 hok
     exact ⟨e, rfl, this.2.1, this.2.2.1, this.2.2.2, this.1⟩
 
-theorem vc_expired_rejected (c : Cfg) (pr : Params) (hx : pr.ttlExpired = true) (s : State) (a p : Str)
+/-- **vc_expired_rejected**: once the lifetime comparison holds for the entry of the key (`Proved c`: now − setTime > TTL), no
+    code and no hash verifies, whatever the attempt counter -/
+theorem vc_expired_rejected (c : Cfg) (pr : Params) (s : State) (a p : Str) (e : Entry)
+    (hl : lookup (mkKey c.verifyKeyFmt a p) s.cache = some e)
+    (hx : c.ttlCmp.holds ((s.now : Int) - e.setTime) pr.ttl = true)
     (code : Code) (hash : Nat) : (verify c pr s a p code hash).2 ≠ .ok := by
   intro h
-  obtain ⟨_, _, _, _, h4, _⟩ := vc_wrong_rejected c pr s a p code hash h
+  obtain ⟨e', hl', _, _, h4, _⟩ := vc_wrong_rejected c pr s a p code hash h
+  rw [hl] at hl'; cases hl'
   rw [hx] at h4; cases h4
+
+/-- … and with the right code, the right hash and attempts left the answer is exactly `timeout` -/
+theorem vc_expired_timeout (c : Cfg) (pr : Params) (s : State) (a p : Str) (e : Entry)
+    (hl : lookup (mkKey c.verifyKeyFmt a p) s.cache = some e)
+    (hx : c.ttlCmp.holds ((s.now : Int) - e.setTime) pr.ttl = true) (hn : e.verifyCount + 1 ≤ pr.maxVerify) :
+    (verify c pr s a p e.code e.hash).2 = .timeout := by
+  unfold verify
+  rw [verifyK_some _ _ _ _ _ _ e hl]
+  have := checkVerify_right c pr s.now { e with verifyCount := e.verifyCount + 1 } (by simpa using hn)
+  simp only at this
+  rw [this, if_pos hx]
 
 /-- every stored hash was issued: it is at most the number of accepted sends -/
 def WF (s : State) : Prop := ∀ k e, lookup k s.cache = some e → e.hash ≤ s.nsent
@@ -287,20 +362,20 @@ theorem wf_init : WF State.init := by intro k e h; simp [State.init] at h
 
 theorem wf_step (c : Cfg) (pr : Params) (s : State) (o : Op) (hs : WF s) : WF (step c pr s o).1 := by
   cases o with
-  | send a p =>
+  | send t a p =>
     simp only [step, send]
-    rcases sendK_cases pr s (mkKey c.sendKeyFmt a p) p with ⟨_, h2⟩ | ⟨cnt, _, h2, _⟩
+    rcases sendK_cases c pr (advance t s) (mkKey c.sendKeyFmt a p) p with ⟨_, h2⟩ | ⟨cnt, ct, _, h2, _⟩
     · rw [h2]; exact hs
     · rw [h2]; intro k e hl
       rcases lookup_setLRU_cases _ _ _ _ _ _ hl with ⟨_, he⟩ | ⟨_, hl'⟩
       · subst he; exact Nat.le_refl _
       · exact Nat.le_succ_of_le (hs k e hl')
-  | verify a p code hash =>
+  | verify t a p code hash =>
     simp only [step, verify]
     cases hl : lookup (mkKey c.verifyKeyFmt a p) s.cache with
-    | none => rw [verifyK_none _ _ _ _ _ hl]; exact hs
+    | none => rw [verifyK_none _ _ _ _ _ _ (by simpa using hl)]; exact hs
     | some e0 =>
-      rw [verifyK_some _ _ _ _ _ e0 hl]; intro k e hl2
+      rw [verifyK_some _ _ _ _ _ _ e0 (by simpa using hl)]; intro k e hl2
       rcases lookup_touch_cases _ _ _ _ _ hl2 with ⟨_, he⟩ | ⟨_, hl'⟩
       · subst he; exact hs _ e0 hl
       · exact hs k e hl'
@@ -313,21 +388,21 @@ theorem onlyAt_step (c : Cfg) (pr : Params) (h : Nat) (k : Str) (s : State) (o :
   refine ⟨wf_step c pr s o hs.1, ?_⟩
   obtain ⟨hwf, hle, hon⟩ := hs
   cases o with
-  | send a p =>
+  | send t a p =>
     simp only [step, send]
-    rcases sendK_cases pr s (mkKey c.sendKeyFmt a p) p with ⟨_, h2⟩ | ⟨cnt, _, h2, _⟩
+    rcases sendK_cases c pr (advance t s) (mkKey c.sendKeyFmt a p) p with ⟨_, h2⟩ | ⟨cnt, ct, _, h2, _⟩
     · rw [h2]; exact ⟨hle, hon⟩
     · rw [h2]; refine ⟨Nat.le_succ_of_le hle, ?_⟩
       intro k' e hne hl
       rcases lookup_setLRU_cases _ _ _ _ _ _ hl with ⟨_, he⟩ | ⟨_, hl'⟩
-      · subst he; simp only; omega
+      · subst he; simp only [advance_nsent]; omega
       · exact hon k' e hne hl'
-  | verify a p code hash =>
+  | verify t a p code hash =>
     simp only [step, verify]
     cases hl : lookup (mkKey c.verifyKeyFmt a p) s.cache with
-    | none => rw [verifyK_none _ _ _ _ _ hl]; exact ⟨hle, hon⟩
+    | none => rw [verifyK_none _ _ _ _ _ _ (by simpa using hl)]; exact ⟨hle, hon⟩
     | some e0 =>
-      rw [verifyK_some _ _ _ _ _ e0 hl]; refine ⟨hle, ?_⟩
+      rw [verifyK_some _ _ _ _ _ _ e0 (by simpa using hl)]; refine ⟨hle, ?_⟩
       intro k' e hne hl2
       rcases lookup_touch_cases _ _ _ _ _ hl2 with ⟨hk, he⟩ | ⟨_, hl'⟩
       · subst he; exact hon _ e0 (hk ▸ hne) hl
@@ -341,11 +416,13 @@ theorem vc_other_key_rejected (c : Cfg) (pr : Params) (s : State) (hs : WF s) (a
     (verify c pr (final (step c pr) (send c pr s a p).1 ops) a' p' code h).2 ≠ .ok := by
   have h0 : WF (send c pr s a p).1 ∧ OnlyAt h (mkKey c.sendKeyFmt a p) (send c pr s a p).1 := by
     unfold send at hacc ⊢
-    rcases sendK_cases pr s (mkKey c.sendKeyFmt a p) p with ⟨h1, _⟩ | ⟨cnt, h1, h2, _⟩
+    rcases sendK_cases c pr s (mkKey c.sendKeyFmt a p) p with ⟨h1, _⟩ | ⟨cnt, ct, h1, h2, _⟩
     · rw [h1] at hacc; cases hacc
     · rw [h1] at hacc; cases hacc
       refine ⟨?_, ?_⟩
-      · have := wf_step c pr s (.send a p) hs; simpa [step, send] using this
+      · have := wf_step c pr s (.send 0 a p) hs
+        have ha : advance 0 s = s := by simp [advance]
+        simpa [step, send, ha] using this
       · rw [h2]; refine ⟨Nat.le_refl _, ?_⟩
         intro k' e hk hl
         rcases lookup_setLRU_cases _ _ _ _ _ _ hl with ⟨hk', _⟩ | ⟨_, hl'⟩
@@ -379,10 +456,10 @@ theorem vc_nothing_sent_not_exist (c : Cfg) (pr : Params) (k : Str) : ∀ (ops :
     apply vc_nothing_sent_not_exist c pr k os _ _ hns'
     by_cases hk : o.key c = k
     · cases o with
-      | send a p => exact absurd hk (hns _ (by simp) rfl)
-      | verify a p code hash =>
+      | send t a p => exact absurd hk (hns _ (by simp) rfl)
+      | verify t a p code hash =>
         have hk' : mkKey c.verifyKeyFmt a p = k := hk
-        simp only [step, verify, hk']; rw [verifyK_none _ _ _ _ _ h]; exact h
+        simp only [step, verify, hk']; rw [verifyK_none _ _ _ _ _ _ (by simpa using h)]; exact h
     · exact step_lookup_other_none c pr s o k hk h
 
 /-! ### vc_attempts_bounded, vc_send_resets_attempts -/
@@ -414,31 +491,34 @@ theorem okSince_le (c : Cfg) (pr : Params) (k : Str) : ∀ (ops : List Op) (s : 
     by_cases hk : o.key c = k
     · simp only [hk, if_true]
       cases o with
-      | send a p =>
+      | send t a p =>
         have hk' : mkKey c.sendKeyFmt a p = k := hk
         simp only [Op.isSend, if_true, step, send, hk']
-        rcases sendK_cases pr s k p with ⟨r1, r2⟩ | ⟨cnt, r1, r2, _⟩
+        rcases sendK_cases c pr (advance t s) k p with ⟨r1, r2⟩ | ⟨cnt, ct, r1, r2, _⟩
         · simp only [Out.accepted, r1, Option.isSome_none, Bool.false_eq_true, if_false, r2]
-          exact okSince_le c pr k os s acc h1 h2
+          exact okSince_le c pr k os (advance t s) acc h1 h2
         · simp only [Out.accepted, r1, Option.isSome_some, if_true, r2]
           refine okSince_le c pr k os _ 0 ?_ (Nat.zero_le _)
-          cases hl : lookup k (setLRU pr.cap k ⟨cnt + 1, 0, genCode pr p (s.nsent + 1), s.nsent + 1⟩ s.cache) with
+          generalize hen' : (⟨cnt + 1, 0, genCode pr p ((advance t s).nsent + 1), (advance t s).nsent + 1, (advance t s).now, ct⟩ : Entry) = en at *
+          have hen : en.verifyCount = 0 := by rw [← hen']
+          cases hl : lookup k (setLRU pr.cap k en (advance t s).cache) with
           | none => exact Or.inl rfl
           | some e' =>
             right
             rcases lookup_setLRU_cases _ _ _ _ _ _ hl with ⟨_, he⟩ | ⟨hne, _⟩
-            · simp [vcOf, hl, he]
+            · simp only [advance_cache] at hl
+              simp [vcOf, hl, he, hen]
             · exact absurd rfl hne
-      | verify a p code hash =>
+      | verify t a p code hash =>
         have hk' : mkKey c.verifyKeyFmt a p = k := hk
         simp only [Op.isSend, Bool.false_eq_true, if_false, step, verify, hk']
         cases hl : lookup k s.cache with
         | none =>
-          rw [verifyK_none _ _ _ _ _ hl]
+          rw [verifyK_none _ _ _ _ _ _ (by simpa using hl)]
           simp only [Out.isOk, Bool.false_eq_true, if_false]
-          exact okSince_le c pr k os s acc h1 h2
+          exact okSince_le c pr k os (advance t s) acc h1 h2
         | some e =>
-          rw [verifyK_some _ _ _ _ _ e hl]
+          rw [verifyK_some _ _ _ _ _ _ e (by simpa using hl)]
           have hv : (acc : Int) ≤ e.verifyCount := by
             rcases h1 with h1 | h1
             · rw [hl] at h1; cases h1
@@ -446,9 +526,9 @@ theorem okSince_le (c : Cfg) (pr : Params) (k : Str) : ∀ (ops : List Op) (s : 
           simp only
           split
           · rename_i hok
-            have hck : checkVerify pr { e with verifyCount := e.verifyCount + 1 } code hash = .ok := by
-              revert hok; cases checkVerify pr { e with verifyCount := e.verifyCount + 1 } code hash <;> simp [Out.isOk]
-            have := ((checkVerify_ok_iff _ _ _ _).1 hck).1
+            have hck : checkVerify c pr (advance t s).now { e with verifyCount := e.verifyCount + 1 } code hash = .ok := by
+              revert hok; cases checkVerify c pr (advance t s).now { e with verifyCount := e.verifyCount + 1 } code hash <;> simp [Out.isOk]
+            have := ((checkVerify_ok_iff _ _ _ _ _ _).1 hck).1
             simp only at this
             exact okSince_le c pr k os _ (acc + 1) (Or.inr (by simp [vcOf]; omega)) (by omega)
           · exact okSince_le c pr k os _ acc (Or.inr (by simp [vcOf]; omega)) h2
@@ -468,10 +548,10 @@ theorem vc_attempts_bounded (c : Cfg) (pr : Params) (k : Str) (ops : List Op) :
   okSince_le c pr k ops State.init 0 (Or.inl rfl) (Nat.zero_le _)
 
 /-- once the attempt counter has reached the limit every further verify — right code and hash included — is refused -/
-theorem vc_limit_rejects_right_code (pr : Params) (s : State) (key : Str) (e : Entry)
+theorem vc_limit_rejects_right_code (c : Cfg) (pr : Params) (s : State) (key : Str) (e : Entry)
     (hl : lookup key s.cache = some e) (hfull : pr.maxVerify ≤ e.verifyCount) (code : Code) (hash : Nat) :
-    (verifyK pr s key code hash).2 = .retryLimit := by
-  rw [verifyK_some _ _ _ _ _ e hl]
+    (verifyK c pr s key code hash).2 = .retryLimit := by
+  rw [verifyK_some _ _ _ _ _ _ e hl]
   simp only [checkVerify]
   rw [if_pos (by omega)]
 
@@ -481,36 +561,29 @@ theorem vc_attempts_exhausted (c : Cfg) (pr : Params) (hfmt : c.sendKeyFmt = c.v
     (s : State) (a p : Str) (h : Nat) (hacc : (send c pr s a p).2.accepted = some h) (ops : List Op)
     (hns : ∀ o ∈ ops, o.isSend = true → o.key c ≠ mkKey c.sendKeyFmt a p)
     (hev : noEvict c pr (mkKey c.sendKeyFmt a p) (send c pr s a p).1 ops = true)
-    (hn : pr.maxVerify ≤ (verifiesOf c (mkKey c.sendKeyFmt a p) ops : Int)) :
-    (verify c pr (final (step c pr) (send c pr s a p).1 ops) a p (genCode pr p h) h).2 = .retryLimit := by
+    (hn : pr.maxVerify ≤ (verifiesOf c (mkKey c.sendKeyFmt a p) ops : Int)) (t : Nat) :
+    (verify c pr (advance t (final (step c pr) (send c pr s a p).1 ops)) a p (genCode pr p h) h).2 = .retryLimit := by
   unfold send at hacc hev ⊢
-  rcases sendK_cases pr s (mkKey c.sendKeyFmt a p) p with ⟨h1, _⟩ | ⟨cnt, h1, h2, _⟩
+  rcases sendK_cases c pr s (mkKey c.sendKeyFmt a p) p with ⟨h1, _⟩ | ⟨cnt, ct, h1, h2, _⟩
   · rw [h1] at hacc; cases hacc
-  · have hl := track c pr (mkKey c.sendKeyFmt a p) ops (sendK pr s (mkKey c.sendKeyFmt a p) p).1 _
+  · have hl := track c pr (mkKey c.sendKeyFmt a p) ops (sendK c pr s (mkKey c.sendKeyFmt a p) p).1 _
       (by rw [h2]; exact lookup_setLRU_self _ _ hcap _ _) hns hev
     unfold verify
     rw [← hfmt]
-    exact vc_limit_rejects_right_code pr _ _ _ hl (by simp only; omega) _ _
+    exact vc_limit_rejects_right_code c pr _ _ _ (by simpa using hl) (by simp only; omega) _ _
 
-/-- **vc_send_resets_attempts**: an accepted send leaves the key with zero attempts, whatever the counter was before
+/-- **vc_send_resets_attempts**: an accepted send leaves the key with zero attempts and a lifetime starting now, whatever the counter was before
     (so by `vc_send_then_verify_now` the new code verifies even if the old one was exhausted) -/
 theorem vc_send_resets_attempts (c : Cfg) (pr : Params) (hcap : 0 < pr.cap) (s : State) (a p : Str) (h : Nat)
     (hacc : (send c pr s a p).2.accepted = some h) :
-    ∃ cnt, lookup (mkKey c.sendKeyFmt a p) (send c pr s a p).1.cache = some ⟨cnt, 0, genCode pr p h, h⟩ := by
+    ∃ cnt ct, lookup (mkKey c.sendKeyFmt a p) (send c pr s a p).1.cache = some ⟨cnt, 0, genCode pr p h, h, s.now, ct⟩ := by
   unfold send at hacc ⊢
-  rcases sendK_cases pr s (mkKey c.sendKeyFmt a p) p with ⟨h1, _⟩ | ⟨cnt, h1, h2, _⟩
+  rcases sendK_cases c pr s (mkKey c.sendKeyFmt a p) p with ⟨h1, _⟩ | ⟨cnt, ct, h1, h2, _⟩
   · rw [h1] at hacc; cases hacc
   · rw [h1] at hacc; cases hacc
-    exact ⟨cnt + 1, by rw [h2]; exact lookup_setLRU_self _ _ hcap _ _⟩
+    exact ⟨cnt + 1, ct, by rw [h2]; exact lookup_setLRU_self _ _ hcap _ _⟩
 
 /-! ### vc_send_limits -/
-
-/-- accepted sends to key `k` in a history -/
-def acceptedSends (c : Cfg) (pr : Params) (k : Str) : State → List Op → Nat
-  | _, [] => 0
-  | s, o :: os =>
-    (if o.isSend && decide (o.key c = k) && (step c pr s o).2.accepted then 1 else 0) +
-      acceptedSends c pr k (step c pr s o).1 os
 
 theorem noEvict_cons (c : Cfg) (pr : Params) (k : Str) (s : State) (o : Op) (os : List Op)
     (h : noEvict c pr k s (o :: os) = true) :
@@ -521,125 +594,207 @@ theorem noEvict_cons (c : Cfg) (pr : Params) (k : Str) (s : State) (o : Op) (os 
   · rw [hp] at h1; cases h1
   · exact h1
 
-/-- minimum-interval regime: while a key stays bound, no send to it is accepted -/
-theorem sends_blocked_when_bound (c : Cfg) (pr : Params) (hmin : pr.minIntervalBlocks = true) (k : Str) :
-    ∀ (ops : List Op) (s : State), present k s = true → noEvict c pr k s ops = true → acceptedSends c pr k s ops = 0
-  | [], _, _, _ => rfl
-  | o :: os, s, h, hev => by
-    have hev' := noEvict_cons c pr k s o os hev
-    simp only [acceptedSends]
-    rw [sends_blocked_when_bound c pr hmin k os _ (hev'.1 h) hev'.2]
-    simp only [Nat.add_zero, ite_eq_right_iff]
-    intro hcond
-    exfalso
-    simp only [Bool.and_eq_true, decide_eq_true_eq] at hcond
-    obtain ⟨⟨hs, hk⟩, hacc⟩ := hcond
-    cases o with
-    | verify a p code hash => cases hs
-    | send a p =>
-      have hk' : mkKey c.sendKeyFmt a p = k := hk
-      simp only [present] at h
-      cases hl : lookup k s.cache with
-      | none => rw [hl] at h; cases h
-      | some e =>
-        simp only [step, send, hk', sendK, hl, checkSend_minb pr e hmin, Out.accepted, SendResult.accepted] at hacc
-        cases hacc
-
-/-- **vc_send_limits (minimum interval)**: in the regime where the interval never elapses, at most one send per key is
-    accepted over any history from any state during which the key is not evicted (capacity ≥ 1) -/
-theorem vc_send_limits_min_interval (c : Cfg) (pr : Params) (hmin : pr.minIntervalBlocks = true) (hcap : 0 < pr.cap)
-    (k : Str) : ∀ (ops : List Op) (s : State), noEvict c pr k s ops = true → acceptedSends c pr k s ops ≤ 1
-  | [], _, _ => Nat.zero_le _
-  | o :: os, s, hev => by
-    have hev' := noEvict_cons c pr k s o os hev
-    simp only [acceptedSends]
+theorem sendK_tooFreq_iff (c : Cfg) (pr : Params) (s : State) (key ph : Str) :
+    (sendK c pr s key ph).2 = .tooFreq ↔ checkSend c pr s.now (lookup key s.cache) = .error .tooFreq := by
+  unfold sendK
+  cases h : checkSend c pr s.now (lookup key s.cache) with
+  | error r => simp
+  | ok v =>
+    obtain ⟨cnt, ct⟩ := v
+    simp only
     split
-    · rename_i hcond
-      simp only [Bool.and_eq_true, decide_eq_true_eq] at hcond
-      obtain ⟨⟨hs, hk⟩, hacc⟩ := hcond
-      have hb : present k (step c pr s o).1 = true := by
-        cases o with
-        | verify a p code hash => cases hs
-        | send a p =>
-          have hk' : mkKey c.sendKeyFmt a p = k := hk
-          simp only [step, send, hk'] at hacc ⊢
-          rcases sendK_cases pr s k p with ⟨r1, _⟩ | ⟨cnt, _, r2, _⟩
-          · simp [Out.accepted, r1] at hacc
-          · rw [r2]; simp [present, lookup_setLRU_self _ _ hcap]
-      rw [sends_blocked_when_bound c pr hmin k os _ hb hev'.2]
-      exact Nat.le_refl _
-    · have := vc_send_limits_min_interval c pr hmin hcap k os (step c pr s o).1 hev'.2
-      omega
+    · simp
+    · split <;> simp
 
-theorem step_scOf (c : Cfg) (pr : Params) (s : State) (o : Op) (k : Str)
-    (h : ¬ (o.isSend = true ∧ o.key c = k)) (hev : present k s = true → present k (step c pr s o).1 = true) :
-    scOf (step c pr s o).1 k = scOf s k := by
-  by_cases hk : o.key c = k
-  · cases o with
-    | send a p => exact absurd ⟨rfl, hk⟩ h
-    | verify a p code hash =>
-      have hk' : mkKey c.verifyKeyFmt a p = k := hk
-      simp only [step, verify, hk', scOf]
-      cases hl : lookup k s.cache with
-      | none => rw [verifyK_none _ _ _ _ _ hl, hl]
-      | some e => rw [verifyK_some _ _ _ _ _ e hl]; simp [scOpt]
-  · simp only [scOf]
-    rcases step_lookup_other c pr s o k hk with h1 | h1
-    · cases hl : lookup k s.cache with
-      | none => rw [h1]
-      | some e =>
-        have := hev (by simp [present, hl])
-        simp [present, h1] at this
-    · rw [h1]
+/-- **one send, minimum interval** (every configuration, every state): a send to a key whose entry was set at `e.setTime` is
+    refused as too frequent IFF the comparison of `now − e.setTime` with MinInterval holds (`Proved c`: `<`) -/
+theorem vc_too_frequent_iff (c : Cfg) (pr : Params) (s : State) (key ph : Str) (e : Entry)
+    (hl : lookup key s.cache = some e) :
+    (sendK c pr s key ph).2 = .tooFreq ↔ c.minIntervalCmp.holds ((s.now : Int) - e.setTime) pr.minInterval = true := by
+  rw [sendK_tooFreq_iff, hl, checkSend_tooFreq_iff]
 
-/-- never-refreshed window: the accepted sends to a key never exceed `MaxCount + 1 − sendCount` while it is not evicted -/
-theorem acceptedSends_le (c : Cfg) (pr : Params) (hwin : pr.windowRefreshes = false) (hcap : 0 < pr.cap) (k : Str) :
-    ∀ (ops : List Op) (s : State), noEvict c pr k s ops = true →
-      acceptedSends c pr k s ops ≤ (pr.maxCount + 1 - scOf s k).toNat
-  | [], _, _ => Nat.zero_le _
-  | o :: os, s, hev => by
+/-- the first send to a key (zero `setTime`) is never too frequent -/
+theorem vc_first_send_not_too_frequent (c : Cfg) (pr : Params) (s : State) (key ph : Str)
+    (hl : lookup key s.cache = none) : (sendK c pr s key ph).2 ≠ .tooFreq := by
+  rw [Ne, sendK_tooFreq_iff, hl]
+  exact checkSend_none_not_tooFreq c pr s.now
+
+/-- key level, every configuration: a send accepted at clock reading `s.now`, any timed history without another send to the key
+    and without eviction, then a send at reading `t'`: it is refused as too frequent IFF the comparison of `t' − s.now` with
+    MinInterval holds -/
+theorem vc_send_limits_min_interval_key (c : Cfg) (pr : Params) (hcap : 0 < pr.cap) (s : State) (a p : Str) (h : Nat)
+    (hacc : (send c pr s a p).2.accepted = some h) (ops : List Op)
+    (hns : ∀ o ∈ ops, o.isSend = true → o.key c ≠ mkKey c.sendKeyFmt a p)
+    (hev : noEvict c pr (mkKey c.sendKeyFmt a p) (send c pr s a p).1 ops = true) (t : Nat) :
+    (send c pr (advance t (final (step c pr) (send c pr s a p).1 ops)) a p).2 = .tooFreq ↔
+      c.minIntervalCmp.holds (((advance t (final (step c pr) (send c pr s a p).1 ops)).now : Int) - s.now) pr.minInterval = true := by
+  unfold send at hacc hev ⊢
+  rcases sendK_cases c pr s (mkKey c.sendKeyFmt a p) p with ⟨h1, _⟩ | ⟨cnt, ct, h1, h2, _⟩
+  · rw [h1] at hacc; cases hacc
+  · have hl := track c pr (mkKey c.sendKeyFmt a p) ops (sendK c pr s (mkKey c.sendKeyFmt a p) p).1 _
+      (by rw [h2]; exact lookup_setLRU_self _ _ hcap _ _) hns hev
+    rw [vc_too_frequent_iff c pr _ _ _ _ (by simpa using hl)]
+
+/-- **vc_send_limits (minimum interval)**, pair level, `Proved c`, all strings, all clock histories: after a send to (a, p)
+    accepted at reading `s.now`, a send to the same pair at reading `t'` is refused as too frequent IFF `t' − s.now < MinInterval` -/
+theorem vc_send_limits_min_interval (c : Cfg) (hc : Proved c) (pr : Params) (hcap : 0 < pr.cap) (s : State) (a p : Str) (h : Nat)
+    (hacc : (send c pr s a p).2.accepted = some h) (ops : List Op)
+    (hns : ∀ o ∈ ops, o.isSend = true → o.pair ≠ (a, p))
+    (hev : noEvict c pr (mkKey .lenPrefix a p) (send c pr s a p).1 ops = true) (t : Nat) :
+    (send c pr (advance t (final (step c pr) (send c pr s a p).1 ops)) a p).2 = .tooFreq ↔
+      ((advance t (final (step c pr) (send c pr s a p).1 ops)).now : Int) - s.now < pr.minInterval := by
+  have hs : c.sendKeyFmt = .lenPrefix := hc.1
+  rw [vc_send_limits_min_interval_key c pr hcap s a p h hacc ops
+    (by
+      intro o ho hsend hk
+      rw [hs] at hk
+      exact hns o ho hsend ((key_eq_iff_pair c hc o a p).1 hk))
+    (by rw [hs]; exact hev) t, hc.2.2.2.1]
+  simp only [LtCmp.holds, decide_eq_true_eq]
+
+/-- ghost window of key `k`, computed from the outputs and the clock alone: (window start, accepted sends in that window); an accepted
+    send starts a new window when there is none or when (its time − window start) compares `>` CounterDuration as the source compares -/
+def winGhost (c : Cfg) (pr : Params) (k : Str) : State → List Op → Option (Nat × Nat) → Option (Nat × Nat)
+  | _, [], g => g
+  | s, o :: os, g =>
+    let r := step c pr s o
+    winGhost c pr k r.1 os
+      (if o.isSend && decide (o.key c = k) && r.2.accepted then
+        (match g with
+          | none => some (r.1.now, 1)
+          | some (st, n) =>
+            if c.windowCmp.holds ((r.1.now : Int) - st) pr.window then some (r.1.now, 1) else some (st, n + 1))
+      else g)
+
+/-- the entry of `k` agrees with the ghost window, and the ghost count is within the bound -/
+def GhostInv (pr : Params) (k : Str) (s : State) : Option (Nat × Nat) → Prop
+  | none => lookup k s.cache = none
+  | some (st, n) => ∃ e, lookup k s.cache = some e ∧ e.counterTime = st ∧ e.sendCount = (n : Int) ∧
+      (n : Int) ≤ max (pr.maxCount + 1) 1
+
+def ghostBound (pr : Params) : Option (Nat × Nat) → Prop
+  | none => True
+  | some (_, n) => (n : Int) ≤ max (pr.maxCount + 1) 1
+
+theorem ghostInv_bound (pr : Params) (k : Str) (s : State) (g : Option (Nat × Nat)) (h : GhostInv pr k s g) :
+    ghostBound pr g := by
+  cases g with
+  | none => trivial
+  | some v => obtain ⟨st, n⟩ := v; obtain ⟨e, _, _, _, hb⟩ := h; exact hb
+
+theorem winGhost_inv (c : Cfg) (pr : Params) (hcap : 0 < pr.cap) (k : Str) : ∀ (ops : List Op) (s : State) (g : Option (Nat × Nat)),
+    GhostInv pr k s g → noEvict c pr k s ops = true → ghostBound pr (winGhost c pr k s ops g)
+  | [], s, g, hi, _ => ghostInv_bound pr k s g hi
+  | o :: os, s, g, hi, hev => by
     have hev' := noEvict_cons c pr k s o os hev
-    simp only [acceptedSends]
-    have ih := acceptedSends_le c pr hwin hcap k os (step c pr s o).1 hev'.2
-    split
-    · rename_i hcond
-      simp only [Bool.and_eq_true, decide_eq_true_eq] at hcond
-      obtain ⟨⟨hs, hk⟩, hacc⟩ := hcond
-      cases o with
-      | verify a p code hash => cases hs
-      | send a p =>
+    simp only [winGhost]
+    refine winGhost_inv c pr hcap k os _ _ ?_ hev'.2
+    by_cases hk : o.key c = k
+    · cases o with
+      | verify t a p code hash =>
+        have hk' : mkKey c.verifyKeyFmt a p = k := hk
+        simp only [Op.isSend, Bool.false_and, Bool.false_eq_true, if_false, step, verify, hk']
+        cases hl : lookup k s.cache with
+        | none => rw [verifyK_none _ _ _ _ _ _ (by simpa using hl)]; cases g with
+          | none => exact hl
+          | some v => obtain ⟨st, n⟩ := v; obtain ⟨e, he, _⟩ := hi; rw [hl] at he; cases he
+        | some e =>
+          rw [verifyK_some _ _ _ _ _ _ e (by simpa using hl)]
+          cases g with
+          | none => simp only [GhostInv] at hi; rw [hl] at hi; cases hi
+          | some v =>
+            obtain ⟨st, n⟩ := v; obtain ⟨e0, he, h1, h2, h3⟩ := hi
+            rw [hl] at he; cases he
+            exact ⟨_, lookup_touch_self _ _ _, h1, h2, h3⟩
+      | send t a p =>
         have hk' : mkKey c.sendKeyFmt a p = k := hk
-        simp only [step, send, hk'] at hacc ih ⊢
-        rcases sendK_cases pr s k p with ⟨r1, _⟩ | ⟨cnt, _, r2, r3⟩
-        · simp [Out.accepted, r1] at hacc
-        · rw [r2] at ih ⊢
-          rcases checkSend_ok_cnt pr _ cnt r3 with ⟨hw, _⟩ | ⟨_, hle, hcnt⟩
-          · rw [hwin] at hw; cases hw
-          · have hsc : scOf s k = cnt := by simp only [scOf]; rw [hcnt]
-            simp only [scOf, lookup_setLRU_self _ _ hcap, scOpt] at ih
-            rw [hsc]; omega
-    · rename_i hcond
-      by_cases hsk : o.isSend = true ∧ o.key c = k
-      · -- a refused send to k: the state is unchanged
-        cases o with
-        | verify a p code hash => cases hsk.1
-        | send a p =>
-          have hk' : mkKey c.sendKeyFmt a p = k := hsk.2
-          simp only [step, send, hk'] at hcond ih ⊢
-          rcases sendK_cases pr s k p with ⟨_, r2⟩ | ⟨cnt, r1, _, _⟩
-          · rw [r2] at ih ⊢; omega
-          · exfalso; apply hcond; simp [Op.isSend, Op.key, hk', Out.accepted, r1]
-      · rw [step_scOf c pr s o k hsk hev'.1] at ih; omega
+        simp only [Op.isSend, Bool.true_and, hk, decide_true, step, send, hk']
+        rcases sendK_cases c pr (advance t s) k p with ⟨r1, r2⟩ | ⟨cnt, ct, r1, r2, r3⟩
+        · simp only [Out.accepted, r1, Option.isSome_none, Bool.false_eq_true, if_false, r2]
+          cases g with
+          | none => exact hi
+          | some v => exact hi
+        · simp only [Out.accepted, r1, Option.isSome_some, if_true, r2]
+          have hnew := lookup_setLRU_self k pr.cap hcap
+            ⟨cnt + 1, 0, genCode pr p ((advance t s).nsent + 1), (advance t s).nsent + 1, (advance t s).now, ct⟩ (advance t s).cache
+          rcases checkSend_ok c pr _ _ cnt ct r3 with ⟨hw, hc0, hct⟩ | ⟨hw, hle, hc0, hct⟩
+          · -- the window was refreshed
+            cases g with
+            | none => exact ⟨_, hnew, by simp [hct], by simp [hc0], by omega⟩
+            | some v =>
+              obtain ⟨st, n⟩ := v; obtain ⟨e0, he, h1, _, _⟩ := hi
+              have he' : lookup k (advance t s).cache = some e0 := he
+              simp only [he', winElapsed, h1] at hw
+              simp only [hw, if_true]
+              exact ⟨_, hnew, by simp [hct], by simp [hc0], by omega⟩
+          · cases g with
+            | none =>
+              have he' : lookup k (advance t s).cache = none := hi
+              simp only [he', scOpt, ctOpt] at hc0 hct
+              exact ⟨_, hnew, by simp [hct], by simp [hc0], by omega⟩
+            | some v =>
+              obtain ⟨st, n⟩ := v; obtain ⟨e0, he, h1, h2, _⟩ := hi
+              have he' : lookup k (advance t s).cache = some e0 := he
+              simp only [he', winElapsed, h1, scOpt, ctOpt, h2] at hw hc0 hct hle
+              simp only [hw, Bool.false_eq_true, if_false]
+              exact ⟨_, hnew, by simp [hct], by simp [hc0], by omega⟩
+    · have hif : (o.isSend && decide (o.key c = k) && (step c pr s o).2.accepted) = false := by simp [hk]
+      simp only [hif, Bool.false_eq_true, if_false]
+      rcases step_lookup_other c pr s o k hk with h1 | h1
+      · cases g with
+        | none => exact h1
+        | some v =>
+          obtain ⟨st, n⟩ := v; obtain ⟨e0, he, _⟩ := hi
+          have := hev'.1 (by simp [present, he])
+          simp [present, h1] at this
+      · cases g with
+        | none => simp only [GhostInv] at hi ⊢; rw [h1]; exact hi
+        | some v =>
+          obtain ⟨st, n⟩ := v; obtain ⟨e0, he, hr⟩ := hi
+          exact ⟨e0, by rw [h1]; exact he, hr⟩
 
-/-- **vc_send_limits (count per window)**: with a window that is never refreshed, at most `MaxCount + 1` sends per key are
-    accepted over any history from the empty cache that does not evict the key (the bound the code implements:
-    `sendCount > MaxCount`; recorded as an observation in docs/C19.md) -/
-theorem vc_send_limits_count (c : Cfg) (pr : Params) (hwin : pr.windowRefreshes = false) (hcap : 0 < pr.cap) (k : Str)
-    (ops : List Op) (hev : noEvict c pr k State.init ops = true) :
-    acceptedSends c pr k State.init ops ≤ (pr.maxCount + 1).toNat := by
-  have := acceptedSends_le c pr hwin hcap k ops State.init hev
-  simpa [scOf, scOpt, State.init] using this
+/-- **vc_send_limits (count per window)**, every configuration, all clock histories from the empty cache without eviction of the key
+    (capacity ≥ 1): at any time the number of accepted sends in the current window of a key — windows starting at an accepted send,
+    a new one when (time − window start) `>` CounterDuration as the source compares — is at most `max (MaxCount + 1) 1`
+    (the bound the code implements, `sendCount > MaxCount`; see the observation in docs/C19.md) -/
+theorem vc_send_limits_count (c : Cfg) (pr : Params) (hcap : 0 < pr.cap) (k : Str) (ops : List Op)
+    (hev : noEvict c pr k State.init ops = true) :
+    ghostBound pr (winGhost c pr k State.init ops none) :=
+  winGhost_inv c pr hcap k ops State.init none rfl hev
 
+/-- one send, count limit: not too frequent, window not over ⇒ refused with `countLimit` IFF the counter already exceeds MaxCount -/
+theorem vc_count_limit_iff (c : Cfg) (pr : Params) (s : State) (key ph : Str) (e : Entry)
+    (hl : lookup key s.cache = some e)
+    (hmin : c.minIntervalCmp.holds ((s.now : Int) - e.setTime) pr.minInterval = false)
+    (hwin : c.windowCmp.holds ((s.now : Int) - e.counterTime) pr.window = false) :
+    (sendK c pr s key ph).2 = .countLimit ↔ e.sendCount > pr.maxCount := by
+  unfold sendK
+  simp only [hl, checkSend, hmin, hwin, Bool.false_eq_true, if_false]
+  by_cases h : e.sendCount > pr.maxCount
+  · simp [h]
+  · simp only [h, if_false]
+    split
+    · simp
+    · split <;> simp
+
+/-- one send, window over: (time − window start) compares `>` CounterDuration ⇒ the send is not refused by the count limit and, if
+    accepted, starts a new window now with count 1 -/
+theorem vc_window_refresh (c : Cfg) (pr : Params) (hcap : 0 < pr.cap) (s : State) (key ph : Str) (e : Entry)
+    (hl : lookup key s.cache = some e)
+    (hmin : c.minIntervalCmp.holds ((s.now : Int) - e.setTime) pr.minInterval = false)
+    (hwin : c.windowCmp.holds ((s.now : Int) - e.counterTime) pr.window = true) :
+    (sendK c pr s key ph).2 ≠ .countLimit ∧
+    ∀ h, (sendK c pr s key ph).2.accepted = some h →
+      lookup key (sendK c pr s key ph).1.cache = some ⟨1, 0, genCode pr ph h, h, s.now, s.now⟩ := by
+  unfold sendK
+  simp only [hl, checkSend, hmin, hwin, Bool.false_eq_true, if_false, if_true]
+  split
+  · exact ⟨by simp, fun h hh => by simp [SendResult.accepted] at hh⟩
+  · refine ⟨by split <;> simp, fun h hh => ?_⟩
+    have : h = s.nsent + 1 := by
+      revert hh; split <;> simp [SendResult.accepted] <;> exact fun x => x.symm
+    subst this
+    simpa using lookup_setLRU_self key pr.cap hcap _ s.cache
 /-! ### vc_code_length, nonce_alphabet_surjective -/
 
 theorem mockCode_length (phone : Str) (n : Nat) : (mockCode phone n).length = n := by
@@ -691,7 +846,7 @@ theorem genNonce_mem (b : NonceBound) (base : Str) (len : Nat) (vals : List Nat)
 theorem vc_code_length_real (c : Cfg) (hc : Proved c) (pr : Params) (hm : pr.mock = false) (hlen : 0 ≤ pr.codeLen)
     (rnd : Nat → List Nat) (phone : Str) (k : Nat) :
     ∃ t, (genCode pr phone k).text c.nonceBound pr rnd = some t ∧ (t.length : Int) = pr.codeLen ∧ ∀ x ∈ t, x ∈ digits := by
-  rw [hc.2.2]
+  rw [hc.2.2.1]
   simp only [genCode, hm, Bool.false_eq_true, if_false]
   split
   · exact ⟨[], rfl, by simp; omega, by simp⟩
@@ -724,7 +879,7 @@ theorem nonce_alphabet_surjective (base : Str) (i : Nat) (hi : i < base.length) 
 theorem nonce_alphabet_surjective' (c : Cfg) (hc : Proved c) (base : Str) (x : Char) (hx : x ∈ base) :
     ∃ vals, genNonce c.nonceBound base 1 vals = some [x] := by
   obtain ⟨i, hi, rfl⟩ := List.getElem_of_mem hx
-  exact ⟨[i], by rw [hc.2.2]; exact nonce_alphabet_surjective base i hi⟩
+  exact ⟨[i], by rw [hc.2.2.1]; exact nonce_alphabet_surjective base i hi⟩
 
 /-- with the bound `fn(bSize - 1)` the last character of a duplicate-free alphabet is never produced -/
 theorem nonce_lenMinus1_never_last (base : Str) (hnd : base.Nodup) (len : Nat) (vals : List Nat) (out : Str)
@@ -744,12 +899,14 @@ theorem nonce_lenMinus1_never_last (base : Str) (hnd : base.Nodup) (len : Nat) (
 
 /-! ### non-vacuity: concrete non-trivial instances of the hypotheses -/
 
-def cfgFixed : Cfg := ⟨.lenPrefix, .lenPrefix, .len⟩
-def cfgDash : Cfg := ⟨.dashJoin, .dashJoin, .len⟩
-def cfgOld : Cfg := ⟨.dashJoin, .plain, .lenMinus1⟩
-/-- CacheSize 1000, real sender, 6 digits, MaxCount 1, MaxVerifyCount 2, never-expiring, never too frequent, window never refreshed -/
-def prStd : Params := ⟨1000, false, 6, 1, 2, false, false, false, false⟩
-def prMock : Params := ⟨1000, true, 2, 1, 2, false, false, false, false⟩
+def cfgFixed : Cfg := ⟨.lenPrefix, .lenPrefix, .len, .lt, .gt, .gt⟩
+def cfgDash : Cfg := ⟨.dashJoin, .dashJoin, .len, .lt, .gt, .gt⟩
+def cfgOld : Cfg := ⟨.dashJoin, .plain, .lenMinus1, .lt, .gt, .gt⟩
+/-- CacheSize 1000, real sender, 6 digits, MaxCount 1, MaxVerifyCount 2, TTL 300 000 ms, MinInterval 0, window 10^9 ms -/
+def prStd : Params := ⟨1000, false, 6, 1, 2, 300000, 0, 1000000000, false⟩
+def prMock : Params := ⟨1000, true, 2, 1, 2, 300000, 0, 1000000000, false⟩
+/-- TTL 5 ms, MinInterval 3 ms, window 10 ms, MaxCount 1 -/
+def prTimed : Params := ⟨1000, false, 6, 1, 5, 5, 3, 10, false⟩
 
 example : Proved cfgFixed := by decide
 example : ¬ Proved cfgDash := by decide
@@ -763,49 +920,69 @@ example : dec 1234567890123 = "1234567890123".toList := by decide
 /-- `vc_send_then_verify`: after a send to ("1-2","3"), a wrong guess, and traffic on ("1","2-3") — the pair that shares the
     dashed key — the code still verifies and the other pair is refused; hypotheses hold (one attempt < 2, 2 others < 1000) -/
 example : (outs (step cfgFixed prStd) State.init
-    [.send ['1','-','2'] ['3'], .verify ['1','-','2'] ['3'] (.lit ['x']) 1, .send ['1'] ['2','-','3'],
-     .verify ['1'] ['2','-','3'] (.sym 1) 1, .verify ['1','-','2'] ['3'] (.sym 1) 1]) =
+    [.send 0 ['1','-','2'] ['3'], .verify 10 ['1','-','2'] ['3'] (.lit ['x']) 1, .send 20 ['1'] ['2','-','3'],
+     .verify 30 ['1'] ['2','-','3'] (.sym 1) 1, .verify 300000 ['1','-','2'] ['3'] (.sym 1) 1]) =
     [.send (.ok 1), .verify .notMatch, .send (.ok 2), .verify .notMatch, .verify .ok] := by decide
 
 example : noEvict cfgFixed prStd (mkKey .lenPrefix ['1','-','2'] ['3'])
     (send cfgFixed prStd State.init ['1','-','2'] ['3']).1
-    [.verify ['1','-','2'] ['3'] (.lit ['x']) 1, .send ['1'] ['2','-','3'], .verify ['1'] ['2','-','3'] (.sym 1) 1] = true := by
+    [.verify 10 ['1','-','2'] ['3'] (.lit ['x']) 1, .send 20 ['1'] ['2','-','3'], .verify 30 ['1'] ['2','-','3'] (.sym 1) 1] = true := by
   decide
+
+/-- the lifetime boundary (TTL 5 ms, sent at 100): verified at 104 and at 105 ⇒ ok, at 106 ⇒ timeout; a reading that goes back is ignored -/
+example : (outs (step cfgFixed prTimed) State.init
+    [.send 100 ['1'] ['2'], .verify 104 ['1'] ['2'] (.sym 1) 1, .verify 105 ['1'] ['2'] (.sym 1) 1,
+     .verify 106 ['1'] ['2'] (.sym 1) 1, .verify 50 ['1'] ['2'] (.sym 1) 1]) =
+    [.send (.ok 1), .verify .ok, .verify .ok, .verify .timeout, .verify .timeout] := by decide
+
+/-- the minimum-interval boundary (3 ms, sent at 100): a send at 102 is too frequent, at 103 it is accepted; the first send never is -/
+example : (outs (step cfgFixed prTimed) State.init
+    [.send 100 ['1'] ['2'], .send 102 ['1'] ['2'], .send 103 ['1'] ['2']]) =
+    [.send (.ok 1), .send .tooFreq, .send (.ok 2)] := by decide
+
+/-- the window boundary (10 ms, MaxCount 1, window starts at 100): sends at 100 and 104 fill it, 110 is still inside (refused),
+    111 starts a new window -/
+example : (outs (step cfgFixed prTimed) State.init
+    [.send 100 ['1'] ['2'], .send 104 ['1'] ['2'], .send 110 ['1'] ['2'], .send 111 ['1'] ['2'], .send 115 ['1'] ['2'],
+     .send 119 ['1'] ['2']]) =
+    [.send (.ok 1), .send (.ok 2), .send .countLimit, .send (.ok 3), .send (.ok 4), .send .countLimit] := by decide
+
+example : winGhost cfgFixed prTimed (mkKey .lenPrefix ['1'] ['2']) State.init
+    [.send 100 ['1'] ['2'], .send 104 ['1'] ['2'], .send 110 ['1'] ['2'], .send 111 ['1'] ['2'], .send 115 ['1'] ['2']] none =
+    some (111, 2) := by decide
 
 /-- `vc_attempts_bounded` / `vc_attempts_exhausted`: MaxVerifyCount = 2 — two wrong guesses, then the right code is refused;
     `vc_send_resets_attempts`: a new send makes the new code verify -/
 example : (outs (step cfgFixed prStd) State.init
-    [.send ['1'] ['2','3'], .verify ['1'] ['2','3'] (.lit ['x']) 1, .verify ['1'] ['2','3'] (.lit ['x']) 1,
-     .verify ['1'] ['2','3'] (.sym 1) 1, .send ['1'] ['2','3'], .verify ['1'] ['2','3'] (.sym 2) 2]) =
+    [.send 0 ['1'] ['2','3'], .verify 1 ['1'] ['2','3'] (.lit ['x']) 1, .verify 2 ['1'] ['2','3'] (.lit ['x']) 1,
+     .verify 3 ['1'] ['2','3'] (.sym 1) 1, .send 4 ['1'] ['2','3'], .verify 5 ['1'] ['2','3'] (.sym 2) 2]) =
     [.send (.ok 1), .verify .notMatch, .verify .notMatch, .verify .retryLimit, .send (.ok 2), .verify .ok] := by decide
 
-/-- `vc_send_limits_count`: MaxCount = 1 admits two sends, the third is refused; `vc_send_limits_min_interval` -/
-example : (outs (step cfgFixed prStd) State.init [.send [] ['5'], .send [] ['5'], .send [] ['5']]) =
+/-- MaxCount = 1 admits two sends per window, the third is refused -/
+example : (outs (step cfgFixed prStd) State.init [.send 0 [] ['5'], .send 0 [] ['5'], .send 0 [] ['5']]) =
     [.send (.ok 1), .send (.ok 2), .send .countLimit] := by decide
-example : (outs (step cfgFixed { prStd with minIntervalBlocks := true }) State.init [.send [] ['5'], .send [] ['5']]) =
-    [.send (.ok 1), .send .tooFreq] := by decide
 
 /-- mock code: last two characters / left padding; a failing sender still stores the code and returns the hash;
     a negative CodeLen: empty code with the real sender, panic in mock mode -/
 example : mockCode ['5','5','5','1','2'] 2 = ['1','2'] ∧ mockCode ['7'] 3 = ['0','0','7'] := by decide
 example : (outs (step cfgFixed { prStd with smsFails := true }) State.init
-    [.send ['1'] ['2','3'], .verify ['1'] ['2','3'] (.sym 1) 1]) = [.send (.smsFail 1), .verify .ok] := by decide
+    [.send 0 ['1'] ['2','3'], .verify 0 ['1'] ['2','3'] (.sym 1) 1]) = [.send (.smsFail 1), .verify .ok] := by decide
 example : (outs (step cfgFixed { prStd with codeLen := -1 }) State.init
-    [.send ['1'] ['2','3'], .verify ['1'] ['2','3'] (.lit []) 1]) = [.send (.ok 1), .verify .ok] := by decide
-example : (outs (step cfgFixed { prMock with codeLen := -1 }) State.init [.send ['1'] ['2','3']]) = [.send .panic] := by decide
+    [.send 0 ['1'] ['2','3'], .verify 0 ['1'] ['2','3'] (.lit []) 1]) = [.send (.ok 1), .verify .ok] := by decide
+example : (outs (step cfgFixed { prMock with codeLen := -1 }) State.init [.send 0 ['1'] ['2','3']]) = [.send .panic] := by decide
 
 example : genNonce .len ['a','b','c'] 3 [2, 5, 0] = some ['c','c','a'] := by decide
 example : (Code.sym 1).text .len prStd (fun _ => [9, 19, 0, 5, 3, 7]) = some ['9','9','0','5','3','7'] := by decide
-example : WF (final (step cfgFixed prStd) State.init [.send ['1'] ['2','3']]) := wf_reachable _ _ _
+example : WF (final (step cfgFixed prStd) State.init [.send 0 ['1'] ['2','3']]) := wf_reachable _ _ _
 
 /-! ### witnesses -/
 
-/-- OPEN DEFECT — today's format `"%s-%s"` in both methods: ("1-2","3") and ("1","2-3") share the key `1-2-3`; the code
+/-- FIXED (cacheKey) — format `"%s-%s"` in both methods: ("1-2","3") and ("1","2-3") share the key `1-2-3`; the code
     sent to one pair is accepted for the other, to which nothing was sent -/
 theorem witness_dashJoin_collision :
     mkKey .dashJoin ['1','-','2'] ['3'] = mkKey .dashJoin ['1'] ['2','-','3'] ∧
     (outs (step cfgDash { prMock with codeLen := 1 }) State.init
-      [.send ['1','-','2'] ['3'], .verify ['1'] ['2','-','3'] (.lit ['3']) 1]) = [.send (.ok 1), .verify .ok] := by decide
+      [.send 0 ['1','-','2'] ['3'], .verify 0 ['1'] ['2','-','3'] (.lit ['3']) 1]) = [.send (.ok 1), .verify .ok] := by decide
 
 theorem not_other_pair_rejected_dashJoin :
     ¬ (∀ (a p a' p' : Str) (code : Code), (a', p') ≠ (a, p) →
@@ -813,30 +990,52 @@ theorem not_other_pair_rejected_dashJoin :
   intro h
   exact h ['1','-','2'] ['3'] ['1'] ['2','-','3'] (.lit ['3']) (by decide) (by decide)
 
+/-- `<=` instead of `<` in the minimum-interval test differs exactly at the boundary: a send exactly MinInterval (3 ms) after the
+    previous one is refused, although it is not closer than the interval -/
+theorem witness_minInterval_le :
+    (outs (step { cfgFixed with minIntervalCmp := .le } prTimed) State.init [.send 100 ['1'] ['2'], .send 103 ['1'] ['2']]) =
+      [.send (.ok 1), .send .tooFreq] ∧
+    (outs (step cfgFixed prTimed) State.init [.send 100 ['1'] ['2'], .send 103 ['1'] ['2']]) = [.send (.ok 1), .send (.ok 2)] := by decide
+
+/-- `>=` instead of `>` in the lifetime test: a verify exactly TTL (5 ms) after the send times out, although the lifetime is not over -/
+theorem witness_ttl_ge :
+    (outs (step { cfgFixed with ttlCmp := .ge } prTimed) State.init [.send 100 ['1'] ['2'], .verify 105 ['1'] ['2'] (.sym 1) 1]) =
+      [.send (.ok 1), .verify .timeout] ∧
+    (outs (step cfgFixed prTimed) State.init [.send 100 ['1'] ['2'], .verify 105 ['1'] ['2'] (.sym 1) 1]) =
+      [.send (.ok 1), .verify .ok] := by decide
+
+/-- `>=` instead of `>` in the window test: a send exactly CounterDuration (10 ms) after the window start opens a new window, so a
+    third send is accepted where the window as coded still refuses it -/
+theorem witness_window_ge :
+    (outs (step { cfgFixed with windowCmp := .ge } prTimed) State.init
+      [.send 100 ['1'] ['2'], .send 104 ['1'] ['2'], .send 110 ['1'] ['2']]) = [.send (.ok 1), .send (.ok 2), .send (.ok 3)] ∧
+    (outs (step cfgFixed prTimed) State.init
+      [.send 100 ['1'] ['2'], .send 104 ['1'] ['2'], .send 110 ['1'] ['2']]) = [.send (.ok 1), .send (.ok 2), .send .countLimit] := by decide
+
 /-- OBSERVATION — a bounded cache forgets: with CacheSize 2, sends to two other pairs evict the entry; the sent code is then
-    `notExist`, and in the minimum-interval regime a second send to the same pair is accepted again -/
+    `notExist`, and a second send to the same pair inside the minimum interval (1000 ms) is accepted again -/
 theorem witness_eviction_forgets :
-    (outs (step cfgFixed { prStd with cap := 2, minIntervalBlocks := true }) State.init
-      [.send ['1'] ['1'], .send ['1'] ['1'], .send ['1'] ['2'], .send ['1'] ['3'],
-       .verify ['1'] ['1'] (.sym 1) 1, .send ['1'] ['1']]) =
+    (outs (step cfgFixed { prStd with cap := 2, minInterval := 1000 }) State.init
+      [.send 0 ['1'] ['1'], .send 1 ['1'] ['1'], .send 2 ['1'] ['2'], .send 3 ['1'] ['3'],
+       .verify 4 ['1'] ['1'] (.sym 1) 1, .send 5 ['1'] ['1']]) =
       [.send (.ok 1), .send .tooFreq, .send (.ok 2), .send (.ok 3), .verify .notExist, .send (.ok 4)] := by decide
 
 /-- a verify (`Get`) promotes, a refused send (`Peek`) does not -/
 theorem witness_lru_order :
     (outs (step cfgFixed { prStd with cap := 2 }) State.init
-      [.send ['1'] ['1'], .send ['1'] ['2'], .verify ['1'] ['1'] (.lit ['x']) 0, .send ['1'] ['3'],
-       .verify ['1'] ['1'] (.sym 1) 1, .verify ['1'] ['2'] (.sym 2) 2]) =
+      [.send 0 ['1'] ['1'], .send 0 ['1'] ['2'], .verify 0 ['1'] ['1'] (.lit ['x']) 0, .send 0 ['1'] ['3'],
+       .verify 0 ['1'] ['1'] (.sym 1) 1, .verify 0 ['1'] ['2'] (.sym 2) 2]) =
       [.send (.ok 1), .send (.ok 2), .verify .notMatch, .send (.ok 3), .verify .ok, .verify .notExist] := by decide
 
 /-- FIXED (afdf9f1) — formats `"%s-%s"` for send, `"%s%s"` for verify: the code just sent is answered `notExist` -/
 theorem witness_key_mismatch :
-    (outs (step cfgOld prStd) State.init [.send ['8','6'] ['5','5','5'], .verify ['8','6'] ['5','5','5'] (.sym 1) 1]) =
+    (outs (step cfgOld prStd) State.init [.send 0 ['8','6'] ['5','5','5'], .verify 0 ['8','6'] ['5','5','5'] (.sym 1) 1]) =
       [.send (.ok 1), .verify .notExist] := by decide
 
 /-- were both formats `"%s%s"`, (1,23) and (12,3) would share a key: the code sent to one verifies the other -/
 theorem witness_plain_plain_collision :
-    (outs (step ⟨.plain, .plain, .len⟩ prStd) State.init [.send ['1'] ['2','3'], .verify ['1','2'] ['3'] (.sym 1) 1]) =
-      [.send (.ok 1), .verify .ok] := by decide
+    (outs (step { cfgFixed with sendKeyFmt := .plain, verifyKeyFmt := .plain } prStd) State.init
+      [.send 0 ['1'] ['2','3'], .verify 0 ['1','2'] ['3'] (.sym 1) 1]) = [.send (.ok 1), .verify .ok] := by decide
 
 /-- FIXED (1eca911) — bound `fn(bSize - 1)`: whatever the source returns (here: every residue), '9' is never produced -/
 theorem witness_last_char_unreachable :
